@@ -106,7 +106,8 @@ class UnitsEngine(Engine):
                        'the caller: order of resets and queries']
     assumptions = ['CODATA-dependent constants (amu, aBohr, Ry, me) allowed 1e-8 relative slack',
                    'over-determined named choices (energy with length, mass and time) are outside the statement',
-                   'electrical LAMMPS entries (charge, dipole, electric field) are not "mechanical" and are not checked']
+                   'electrical LAMMPS entries (charge, dipole, electric field) are not "mechanical" and are not checked',
+                   'a refused reset_units chose nothing: the units of the last successful request stay in force, exactly', 'expressions outside the grammar (unknown names, unbalanced parentheses, dangling operators) may be refused or evaluated; the answer must be the same when repeated and the same through parse, set_in_units and get_in_units']
 
     # ------------------------------------------------------------------
     def config(self, ctx):
